@@ -49,6 +49,10 @@ Definition clear_events (d : downer) : list ev :=
   | None => []
   end.
 
+(* ZSTD_freeDDictHashSet *)
+Definition set_free_events (d : downer) : list ev :=
+  match do_set d with Some h => [Free (hs_size h * sizeof_ptr); Free sizeof_ZSTD_DDictHashSet] | None => [] end.
+
 Inductive dop :=
 | OpMulti (b : bool)                  (* ZSTD_DCtx_setParameter(ZSTD_d_refMultipleDDicts, b) *)
 | OpRef (dictID : N)                  (* ZSTD_DCtx_refDDict(ddict) *)
@@ -56,7 +60,7 @@ Inductive dop :=
 | OpLoad (size : N) (byRef : bool)    (* ZSTD_DCtx_loadDictionary_advanced, also reached by initDStream_usingDict *)
 | OpPrefix (size : N)                 (* ZSTD_DCtx_refPrefix: a by-reference local DDict used for ONE frame *)
 | OpFrame (w fcs : N)                 (* a frame (no dictID) whose header is loaded by ZSTD_decompressStream, no single-pass shortcut *)
-| OpReset                             (* ZSTD_DCtx_reset(ZSTD_reset_session_and_parameters) *)
+| OpReset                             (* ZSTD_DCtx_reset(ZSTD_reset_session_and_parameters): also frees the DDict set (b70602d) *)
 | OpCopyFrom (srcMulti : bool) (srcUses : duse).   (* ZSTD_copyDCtx(this, src): what arrives from the source that matters here *)
 
 (* load factor test of ZSTD_DDictHashSet_addDDict *)
@@ -134,10 +138,11 @@ Definition down_step (d : downer) (o : dop) : downer * orc * list ev :=
       | DsOk s None => (set_ds d0 s, RcOk, e0)
       end
   | OpReset =>
+      (* fix b70602d: the set of referenced DDicts is dropped too (ZSTD_freeDDictHashSet: table, then structure) *)
       let s := do_ds d in
-      (mkDO false UseNone None (do_set d)
+      (mkDO false UseNone None None
             (mkDS (inBuffSize s) (outBuffSize s) (oversizedDuration s) (staticSize s) c_ZSTD_MAXWINDOWSIZE_DEFAULT 0 true (live s)),
-       RcOk, clear_events d)
+       RcOk, clear_events d ++ set_free_events d)
   | OpCopyFrom m u =>
       (* fix 15cfcd6: the destination keeps customMem, staticSize, ddictLocal, ddictSet; flags arrive from the source *)
       (mkDO m u (do_local d) (do_set d) (do_ds d), RcOk, [])
@@ -169,7 +174,7 @@ Definition sizeof_DCtx_old (d : downer) : N :=
 (* ZSTD_freeDCtx of a heap context *)
 Definition free_events (d : downer) : list ev :=
   clear_events d ++ [Free (live (do_ds d))]
-  ++ (match do_set d with Some h => [Free (hs_size h * sizeof_ptr); Free sizeof_ZSTD_DDictHashSet] | None => [] end)
+  ++ set_free_events d
   ++ [Free sizeof_ZSTD_DCtx].
 
 (* what the counting allocator of the harness sees: the context itself, then the history *)
